@@ -257,6 +257,8 @@ func opMutations(o ctypes.Operation, thorough bool) []opMut {
 	env("round-id-empty", func(m *ctypes.Operation) { m.DKGIdentifier = "" })
 	env("round-id-unknown", func(m *ctypes.Operation) { m.DKGIdentifier = "0123456789abcdef0123456789abcdef" })
 	env("operation-id-short", func(m *ctypes.Operation) { m.ID = "x" })
+	env("operation-id-with-slash", func(m *ctypes.Operation) { m.ID = "a/b" + m.ID })
+	env("operation-id-dot-dot-slash", func(m *ctypes.Operation) { m.ID = "../" + m.ID })
 	env("operation-id-empty", func(m *ctypes.Operation) { m.ID = "" })
 	_ = thorough
 	return out
@@ -503,6 +505,9 @@ func scenarioC18Air(c *Ctx) {
 				c.Case("air-other", false, "skip "+ac.class, "skip "+ac.class)
 			}
 		}
+		if ci == 0 && ready {
+			total += c18AirReinit(c, cl, fmt.Sprintf("c18air-%d", ci), victim)
+		}
 		cl.Close()
 	}
 	c.Notes["operation_files"] = total
@@ -517,4 +522,68 @@ func firstLine(s string) string {
 		return s[:160]
 	}
 	return s
+}
+
+// c18AirReinit: the finished round is reinitialised on fresh nodes and machines; before the victim's
+// machine answers the genuine reinit operation, copies of it whose OUTER round identifier is not the
+// round of the operations it embeds are fed to probes of that machine: such a file is refused, and a
+// refused file leaves the database as it was (in particular no key share of the embedded round).
+func c18AirReinit(c *Ctx, A *Cluster, tag string, victim int) int {
+	B, _, err := startReinit(c, A, tag, false, false)
+	if err != nil {
+		c.Fail(Failure{Property: "C18", Kind: "probe-failed", Signature: map[string]interface{}{"kind": "probe-failed"}, What: "harness: " + err.Error(), Replay: map[string]interface{}{"step": "reinit"}})
+		if B != nil {
+			B.Close()
+		}
+		return 0
+	}
+	defer B.Close()
+	n := 0
+	handle := func(i int, o *ctypes.Operation) (bool, error) {
+		if i != victim || string(o.Type) != "reinit_dkg" {
+			_, err := B.Answer(i, o)
+			return true, err
+		}
+		B.Machines[victim].VerifClose()
+		for _, mu := range []struct{ label, id string }{
+			{"outer-round-shortened", o.DKGIdentifier[:4]},
+			{"outer-round-extended", o.DKGIdentifier + "x"},
+			{"outer-round-empty", ""},
+		} {
+			n++
+			bad := *o
+			bad.DKGIdentifier = mu.id
+			dir := filepath.Join(B.Dir, "probe-reinit-"+mu.label)
+			rep := map[string]interface{}{"operation": "reinit_dkg", "mutation": mu.label}
+			p, err := newAirProbe(B, victim, dir, false)
+			if err != nil {
+				c.Fail(Failure{Property: "C18", Kind: "probe-failed", Signature: map[string]interface{}{"kind": "probe-failed"}, What: "harness: " + err.Error(), Replay: rep})
+				continue
+			}
+			class, detail := p.feed(bad)
+			p.am.VerifClose()
+			before, after := dbSnapshot(filepath.Join(B.MDirs[victim], "db")), dbSnapshot(filepath.Join(dir, "db"))
+			os.RemoveAll(dir)
+			switch {
+			case class == "crash":
+				c.Fail(Failure{Property: "C18", Kind: "machine-crash", Signature: map[string]interface{}{"kind": "machine-crash", "operation": "reinit_dkg", "mutation": mu.label},
+					What: "the airgapped machine crashes on a reinit_dkg operation file with " + mu.label + ": " + firstLine(detail), Replay: rep})
+			case class == "rejected" && before != after:
+				c.Fail(Failure{Property: "C18", Kind: "rejected-operation-changed-database", Signature: map[string]interface{}{"kind": "rejected-operation-changed-database", "operation": "reinit_dkg", "mutation": mu.label},
+					What: "a rejected reinit_dkg operation file (" + mu.label + ") changed the machine's database", Replay: rep})
+			}
+			c.Case("air-reinit-"+class, false, "skip "+class, "skip "+class)
+		}
+		B.Machines[victim] = reopen(B, victim)
+		_, err := B.Answer(i, o)
+		return true, err
+	}
+	B.RunToQuiescenceWith(func(cands []int) int { return 0 }, handle)
+	for i := range B.Nodes {
+		if !strings.Contains(B.RoundState(i), "stage_signing_idle") {
+			c.Fail(Failure{Property: "C18", Kind: "ceremony-failed", Signature: map[string]interface{}{"kind": "ceremony-failed"}, What: "the reinitialisation around the hostile reinit operation files did not finish", Replay: map[string]interface{}{"node": i}})
+			break
+		}
+	}
+	return n
 }
